@@ -115,7 +115,7 @@ func orderAndCopies(e *Env) {
 	early := g.W(6, 2, 2) // 0 none, 1 Close from a task at a random point, 2 server EOF part-way
 	cutAt := g.Intn(n + 1)
 	s := startSession(e, ClientOpts{Nick: "me", Flood: true, Track: g.Pct(30), PingFreq: []time.Duration{0, 3 * time.Second}[g.Intn(2)]},
-		func(l *simnet.Link) { l.ChunkMode = g.Intn(4) })
+		func(l *simnet.Link) { l.ChunkMode = g.Intn(4); l.Window = []int{0, 0, 0, 16, 64, 300}[g.Intn(6)] })
 	// replace the default scripted server: registration, then the stream with
 	// the welcome somewhere inside it
 	causeBegun := false
@@ -407,7 +407,7 @@ func misbehave(e *Env) {
 			}
 		}
 	}
-	s := startSession(e, o, func(l *simnet.Link) { l.ChunkMode = g.Intn(4) })
+	s := startSession(e, o, func(l *simnet.Link) { l.ChunkMode = g.Intn(4); l.Window = []int{0, 0, 0, 16, 64, 300}[g.Intn(6)] })
 	e.Log.Keep = true
 	n := g.Range(1, 40)
 	verbs := []string{"FOO", "BAR"}
@@ -648,7 +648,7 @@ type hReg struct {
 func handlerHistory(e *Env) {
 	g := G{e.S}
 	names := []string{"foo", "bar", "baz"}[:g.Range(1, 3)]
-	s := startSession(e, ClientOpts{Nick: "me", Flood: true}, func(l *simnet.Link) { l.ChunkMode = g.Intn(4) })
+	s := startSession(e, ClientOpts{Nick: "me", Flood: true}, func(l *simnet.Link) { l.ChunkMode = g.Intn(4); l.Window = []int{0, 0, 0, 16, 64, 300}[g.Intn(6)] })
 	var regs []*hReg
 	type evt struct {
 		seq     int
